@@ -251,6 +251,27 @@ def run_moved(case, ctx):
     base = {"int": lambda i: i, "bool": lambda i: i % 2 == 0, "float": lambda i: i + 0.5, "date": lambda i: W._date(2020, 1, 1 + i), "str": lambda i: "s%d" % i}
     wider = {"int": 2.5, "bool": 7, "float": 1j, "date": _dtm(2021, 2, 3, 4, 5), "str": "zz"}
     keep = []
+    # two vectors over one caller tuple: a write is refused while both live (and the refusal must not keep the partner alive)
+    tp0 = tuple(base[case["vecs"][0]["kind"]](i) for i in range(case["vecs"][0]["n"]))
+    va_, vb_ = S.Vector(tp0), S.Vector(tp0)
+    ctx.ev()
+    try:
+        va_[0] = va_[0]
+        return ctx.fail("moved/shared-write-not-refused", f"two vectors over {tp0}: the write went through")
+    except S.AliasError:
+        pass
+    except Exception:  # noqa: BLE001
+        pass
+    del vb_, tp0
+    if case["gc"]:
+        gc.collect()
+    ctx.ev()
+    try:
+        va_[0] = va_[0]
+    except S.AliasError as e:
+        return ctx.fail("moved/spurious-refusal/after-a-refused-attempt", f"the partner was dropped{' and collected' if case['gc'] else ''}, the survivor is still refused: {e}")
+    except Exception:  # noqa: BLE001
+        pass
     for spec in case["vecs"]:
         kind, n, move = spec["kind"], spec["n"], spec["move"]
         vals = [base[kind](i) for i in range(n)]
